@@ -55,8 +55,12 @@ def cases(tier):
                     continue
                 out.append(dict(mode=mode, alter=alt, n=n))
         # one BCB over two targets (payload and an extension block): a failure of either target fails the bundle
-        for alt in ('none', 'ciphertext-octet', 'second-ciphertext-octet', 'lifetime'):
-            out.append(dict(mode=mode, alter=alt, n=4, targets=2))
+        two = ('none', 'ciphertext-octet', 'second-ciphertext-octet', 'lifetime')
+        if tier != 'quick':
+            two = [a for a in ALTER if a != 'unrelated-block'] + ['second-ciphertext-octet'] + (['wrapped-key'] if mode == 'wrap' else [])
+        for alt in two:
+            for n in ((4,) if tier == 'quick' else (4, 0)):
+                out.append(dict(mode=mode, alter=alt, n=n, targets=2))
     return out
 
 
